@@ -79,20 +79,25 @@ FH_CODES = {
 class VClock:
     def __init__(self):
         self.now = 1_000_000
-        self.timers = []
+        self.timers = []  # (weakref, owner)
+        self.owner = None  # whoever is running handler code right now (timers are attributed to it)
 
     def reset(self):
         self.now = 1_000_000
         self.timers = []
+        self.owner = None
 
-    def next_deadline(self):
+    def next_deadline(self, owner=None):
+        """Earliest pending expiry (of timers created while `owner` was active, if given)."""
         best = None
         alive = []
-        for r in self.timers:
+        for r, o in self.timers:
             t = r()
             if t is None:
                 continue
-            alive.append(r)
+            alive.append((r, o))
+            if owner is not None and o is not owner:
+                continue
             d = t._start_time_ms + t._timeout_ms
             if d > self.now and (best is None or d < best):
                 best = d
@@ -117,7 +122,7 @@ def install_clock():
 
     def init(self, init_timeout):
         orig_init(self, init_timeout)
-        CLOCK.timers.append(weakref.ref(self))
+        CLOCK.timers.append((weakref.ref(self), CLOCK.owner))
 
     Countdown.__init__ = init
 
@@ -713,9 +718,13 @@ class Link:
 
     def __init__(self, faults, log):
         self.faults = {}
+        self.silence = {}  # kind -> first occurrence from which every PDU of that kind is dropped
         for f in faults or []:
             kind, occ, action = f[0], f[1], f[2]
             arg = f[3] if len(f) > 3 else 0
+            if action == "dropall":
+                self.silence[kind] = min(occ, self.silence.get(kind, occ))
+                continue
             self.faults.setdefault((kind, occ), []).append((action, arg))
         self.log = log
         self.count = {}
@@ -735,7 +744,9 @@ class Link:
             item[0] -= 1
             (release if item[0] <= 0 else still).append(item)
         self.delayed[to] = still
-        acts = self.faults.get((kind, occ), [])
+        acts = list(self.faults.get((kind, occ), []))
+        if kind in self.silence and occ >= self.silence[kind]:
+            acts.append(("drop", 0))
         copies = [[pdu, 0]]
         dropped = False
         delay = 0
@@ -800,65 +811,98 @@ class Link:
 
 
 # ------------------------------------------------------------------ the simulation
+class Session:
+    """A source handler and a destination handler (with their entities, users, fault handlers and
+    one shared event log) that can carry several consecutive transfers (C11)."""
+
+    def __init__(self, cfg, name="t", src_vfs=None, dst_vfs=None, hook=None):
+        self.cfg = norm_cfg(cfg)
+        self.log = []
+        self.root = fresh_dir(name)
+        self.owner = object()
+        prev = CLOCK.owner
+        CLOCK.owner = self.owner
+        try:
+            sh, self.src_user, self.src_fh, self.seqp = make_source(self.cfg, self.log, src_vfs, hook)
+            dh, self.dst_user, self.dst_fh = make_dest(self.cfg, self.log, dst_vfs, hook)
+        finally:
+            CLOCK.owner = prev
+        self.src = SrcEntity(sh, self.log, self.cfg["transport"])
+        self.dst = DstEntity(dh, self.log, self.cfg["transport"])
+        self.ntransfers = 0
+
+    def close(self):
+        shutil.rmtree(self.root, ignore_errors=True)
+
+
 class Sim:
     """Source entity, destination entity, link, clock - for one process-local run.
 
-    case keys: cfg, file (bytes | None for metadata-only), faults, pacing, inject, dest_kind
+    case keys: cfg, file (bytes | spec | None for metadata-only), faults, pacing, inject, dest_kind
     ('file' | 'dir' | 'existing'), fs_rejects (write call indices), msgs (list of bytes),
     tick_mode ('after' | 'exact').
+    With `session` the handlers of an earlier transfer are reused (MIB-level configuration is the
+    session's; request-level mode/closure, file, faults and pacing are this case's).
     """
 
-    def __init__(self, case, name="t", src_vfs=None, dst_vfs=None, hook=None, keep_tracker=False, fresh_clock=True, paths=None):
+    def __init__(self, case, name="t", src_vfs=None, dst_vfs=None, hook=None, keep_tracker=False, fresh_clock=True, session=None):
         install_clock()
         if fresh_clock:
             CLOCK.reset()
         self.used_tracker_workaround = False if keep_tracker else workaround_shared_tracker()
         self.case = case
         self.cfg = norm_cfg(case.get("cfg"))
-        self.log = []
         self.hook = hook
         from .models import file_bytes
 
         content = file_bytes(case.get("file", b""))
         self.content = content
-        if paths is None:
-            self.root = fresh_dir(name)
-            self.sdir = self.root / "s"
-            self.ddir = self.root / "d"
-            self.sdir.mkdir()
-            self.ddir.mkdir()
-            self.src_path = self.sdir / "src.bin"
-            dk = case.get("dest_kind", "file")
-            if dk == "dir":
-                (self.ddir / "sub").mkdir()
-                self.dest_arg = self.ddir / "sub"
-                self.dest_path = self.ddir / "sub" / "src.bin"
-            else:
-                self.dest_arg = self.ddir / "dst.bin"
-                self.dest_path = self.dest_arg
-                if dk == "existing":
-                    self.dest_path.write_bytes(b"OLD-CONTENT-" * 7)
-            if content is not None:
-                self.src_path.write_bytes(content)
-        else:
-            self.root = None
-            self.src_path, self.dest_arg, self.dest_path = paths
         rej = case.get("fs_rejects")
-        if dst_vfs is None and rej:
+        if dst_vfs is None and rej and session is None:
             dst_vfs = RejectingFilestore(
                 reject_writes=rej.get("writes", ()), reject_create=rej.get("create", False), reject_truncate=rej.get("truncate", False)
             )
         self.dst_vfs = dst_vfs
-        sh, self.src_user, self.src_fh, self.seqp = make_source(self.cfg, self.log, src_vfs, hook)
-        dh, self.dst_user, self.dst_fh = make_dest(self.cfg, self.log, dst_vfs, hook)
-        self.src = SrcEntity(sh, self.log, self.cfg["transport"])
-        self.dst = DstEntity(dh, self.log, self.cfg["transport"])
+        self.own_session = session is None
+        if session is None:
+            session = Session(self.cfg, name, src_vfs, dst_vfs, hook)
+        self.sess = session
+        self.owner = session.owner
+        self.log = session.log
+        self.mark = len(self.log)
+        self.root = session.root
+        self.sdir = self.root / "s"
+        self.ddir = self.root / "d"
+        for d in (self.sdir, self.ddir):
+            if d.exists():
+                shutil.rmtree(d)
+            d.mkdir()
+        self.src_path = self.sdir / "src.bin"
+        dk = case.get("dest_kind", "file")
+        if dk == "dir":
+            (self.ddir / "sub").mkdir()
+            self.dest_arg = self.ddir / "sub"
+            self.dest_path = self.ddir / "sub" / "src.bin"
+        else:
+            self.dest_arg = self.ddir / "dst.bin"
+            self.dest_path = self.dest_arg
+            if dk == "existing":
+                self.dest_path.write_bytes(b"OLD-CONTENT-" * 7)
+        if content is not None:
+            self.src_path.write_bytes(content)
+        self.src, self.dst = session.src, session.dst
+        self.src_user, self.src_fh, self.seqp = session.src_user, session.src_fh, session.seqp
+        self.dst_user, self.dst_fh = session.dst_user, session.dst_fh
+        self.src.ncalls = 0
+        self.dst.ncalls = 0
+        session.ntransfers += 1
         self.link = Link(case.get("faults"), self.log)
         self.ticks = 0
         self.outcome = None
         self.put_result = None
         self.put_exc = None
         self.steps = 0
+        self.between = None  # optional callback run after every step (sibling handlers)
 
     # -- request
     def make_put_request(self):
@@ -888,6 +932,7 @@ class Sim:
         )
 
     def put(self):
+        CLOCK.owner = self.owner
         try:
             self.put_result = self.src.h.put_request(self.make_put_request())
         except Exception as e:  # noqa: BLE001
@@ -925,6 +970,7 @@ class Sim:
 
     def step(self, side, with_pdu=True):
         ent = self.src if side == "src" else self.dst
+        CLOCK.owner = self.owner
         self._inject(side, ent.ncalls + 1)
         pdu = self.link.pop(side) if with_pdu else None
         if pdu is not None:
@@ -933,13 +979,16 @@ class Sim:
             out = ent.call(None)
         self._forward(out)
         self.steps += 1
+        if self.between is not None:
+            self.between(self)
+            CLOCK.owner = self.owner
         return len(out) > 0 or pdu is not None
 
     def done(self):
         return self.src.idle() and self.dst.idle() and self.link.empty()
 
     def advance_clock(self, mode="after"):
-        d = CLOCK.next_deadline()
+        d = CLOCK.next_deadline(self.owner)
         if d is None:
             return False
         CLOCK.now = d + (1 if mode == "after" else 0)
@@ -1002,24 +1051,29 @@ class Sim:
         except (FileNotFoundError, IsADirectoryError):
             return None
 
+    @property
+    def tlog(self):
+        """Events of this transfer only."""
+        return self.log[self.mark :]
+
     def events(self, *kinds):
-        return [e for e in self.log if e[0] in kinds]
+        return [e for e in self.tlog if e[0] in kinds]
 
     def finished_inds(self, side):
-        return [e[3] for e in self.log if e[0] == "ind" and e[1] == side and e[2] == "finished"]
+        return [e[3] for e in self.tlog if e[0] == "ind" and e[1] == side and e[2] == "finished"]
 
     def faults(self, side=None):
-        return [e for e in self.log if e[0] == "fault" and (side is None or e[1] == side)]
+        return [e for e in self.tlog if e[0] == "fault" and (side is None or e[1] == side)]
 
     def excs(self, library=None):
-        return [e for e in self.log if e[0] == "exc" and (library is None or e[4] == library)]
+        return [e for e in self.tlog if e[0] == "exc" and (library is None or e[4] == library)]
 
     def emitted(self, side):
-        return [e[3] for e in self.log if e[0] == "emit" and e[1] == side]
+        return [e[3] for e in self.tlog if e[0] == "emit" and e[1] == side]
 
     def close(self):
-        if self.root is not None:
-            shutil.rmtree(self.root, ignore_errors=True)
+        if self.own_session:
+            self.sess.close()
 
 
 def summarize(sim: Sim) -> dict:
